@@ -1,7 +1,7 @@
 #!/bin/sh
 # TLC launcher: big thread stacks (nested permutation folds), parallel GC,
 # CommunityModules on the classpath, optional Java overrides in /verif/.build/jov.
-JOV=/verif/.build/jov
+JOV=${VERIF_ROOT:-/verif}/.build/jov
 CP=/opt/veriftools/tla/tla2tools.jar:/opt/veriftools/tla/CommunityModules-deps.jar
 [ -d "$JOV" ] && CP="$JOV:$CP"
 exec java -Xss256m ${TLC_XMX:--Xmx3g} -XX:+UseParallelGC -XX:ParallelGCThreads=2 -XX:TieredStopAtLevel=${TLC_TIER:-4} \
